@@ -236,6 +236,45 @@ def guard_obligation(ctx, col: Collector, rule: str, fi: FuncInfo, name: str,
         # positive evidence of a missing guard = the expected exception class is raised nowhere in the function or in the
         # package functions it calls; if it still is, the guard was only rewritten in a form this rule does not read
         still = raises_in_closure(ctx, fi, exc_ids)
+        # positive evidence of the other kind: every raise of the expected class sits in this function, under conditions that can all be read as plain tests on
+        # access paths - and none of them is the check asked for.  Then the function demonstrably raises only for OTHER reasons.
+        own = [n for n in walk_no_nested(fi.node) if isinstance(n, ast.Raise) and n.exc is not None and resolve_exc(ctx, fi, n.exc) in exc_ids]
+        if still and len(own) == len(still) and not require_loop_over:
+            def plain(l) -> bool:
+                if not isinstance(l, tuple) or not l:
+                    return False
+                if l[0] == 'not':
+                    return plain(l[1])
+                if l[0] in ('in', 'eq', 'is'):
+                    return all(isinstance(x, str) and '(' not in x and 'lambda' not in x for x in l[1:])
+                if l[0] in ('truthy', 'none'):
+                    return isinstance(l[1], str) and '(' not in l[1]
+                if l[0] == 'isinstance':
+                    return True
+                return False
+            reasons = []
+            readable = True
+            for path in paths:
+                if path[-1].kind != 'raise' or path[-1].node not in own:
+                    continue
+                before: List[ast.AST] = []
+                lits_: List[tuple] = []
+                for ev in path:
+                    if ev.kind == 'stmt':
+                        before.append(ev.node)
+                        if any(isinstance(x, ast.Call) for x in ast.walk(ev.node)) and not isinstance(ev.node, ast.Expr):
+                            pass
+                    elif ev.kind == 'test':
+                        lits_.extend(conjuncts(term(ev.node, ev.outcome, copy_subst(before) if subst_locals else None)))
+                    elif ev.kind == 'iter':
+                        readable = False
+                if not all(plain(l) for l in lits_):
+                    readable = False
+                reasons.append(sorted({str(l) for l in lits_ if not (l[0] == 'not')})[:3])
+            if readable and reasons:
+                col.bad(rule, cons + ':present', f'{fi.qualname}: no branch test establishes `{what or name}`; {sorted(e.split(":")[-1] for e in exc_ids)} is raised only under '
+                        f'{reasons[:3]} - the guard is missing', node=fi.node, file=fi.file)
+                return False
         if still:
             col.unk(rule, cons + ':present', f'{fi.qualname}: the check `{what or name}` is not in a recognised form (the expected exception is still raised at '
                     f'{still[0]}); cannot judge it', node=fi.node, file=fi.file)
